@@ -18,13 +18,13 @@ var c08PresentPct = []int{0, 25, 50, 75, 90}
 
 type c08Config struct {
 	Profile    string `json:"profile"`
-	Limit      int   `json:"limit"`
-	Sized      bool  `json:"sized"`
-	Keys       int   `json:"keys"`
-	Ops        int   `json:"ops"`
-	Weights    []int `json:"op_weights"`
-	PresentPct int   `json:"present_pct"`
-	SweepEvery int   `json:"sweep_every"`
+	Limit      int    `json:"limit"`
+	Sized      bool   `json:"sized"`
+	Keys       int    `json:"keys"`
+	Ops        int    `json:"ops"`
+	Weights    []int  `json:"op_weights"`
+	PresentPct int    `json:"present_pct"`
+	SweepEvery int    `json:"sweep_every"`
 }
 
 func drawC08Config(ch chooser.Chooser) c08Config {
@@ -272,7 +272,7 @@ func runC08(ch chooser.Chooser, st *Stats, mk cacheMaker) *Outcome {
 // anything else (DESIGN.md 5.2).
 func withTwin(ch chooser.Chooser, st *Stats, run func(chooser.Chooser, *Stats, cacheMaker) *Outcome) *Outcome {
 	out := run(ch, st, makeReal)
-	if out.Violation == nil || !TwinAvailable() {
+	if out.Violation == nil || !TwinAvailable() || !kf1Classes[out.Violation.Class] {
 		return out
 	}
 	rec := append([]chooser.Choice(nil), ch.Record()...)
@@ -301,6 +301,11 @@ func withTwin(ch chooser.Chooser, st *Stats, run func(chooser.Chooser, *Stats, c
 	}
 	return out
 }
+
+// kf1Classes are the violation classes a wrong eviction victim can produce.
+// Anything else (a data race, a deadlock, a panic, broken accounting) is never
+// put to the twin: KF1 cannot explain it.
+var kf1Classes = map[string]bool{"wrong-result": true, "callback-mismatch": true, "content-mismatch": true, "not-linearizable": true}
 
 func init() {
 	register(&Property{
